@@ -130,9 +130,9 @@ Definition dict_choi_to_hs (d : nat) (B : nat -> cmat) (a b : nat) : list (nat *
   flat_map (fun i => flat_map (fun j => let z := bbc d B a b i j in if cnzb z then [(i, j, z)] else [])
                               (seq 0 (d * d))) (seq 0 (d * d)).
 Definition choi_dict (d : nat) (B : nat -> cmat) (H : cmat) : cmat :=
-  fun i j => fold_right (fun e acc => let '(a, b, z) := e in H a b * z + acc) 0 (dict_hs_to_choi d B i j).
+  fun i j => fold_right (fun e acc => H (fst (fst e)) (snd (fst e)) * snd e + acc) 0 (dict_hs_to_choi d B i j).
 Definition chs_dict (d : nat) (B : nat -> cmat) (Ch : cmat) : cmat :=
-  fun a b => fold_right (fun e acc => let '(i, j, z) := e in z * Ch j i + acc) 0 (dict_choi_to_hs d B a b).
+  fun a b => fold_right (fun e acc => snd e * Ch (snd (fst e)) (fst (fst e)) + acc) 0 (dict_choi_to_hs d B a b).
 
 (* ---------------------------------------------------------------- variables <-> HS (gate.convert_var_to_hs / convert_hs_to_var)
    and the Choi wrappers gate.to_choi_from_var / gate.to_var_from_choi *)
@@ -171,6 +171,31 @@ Definition pvecs_of_var (sd : F) (d m : nat) (para : bool) (v : rvec) : nat -> r
              then csub F (if Nat.eqb a 0 then sd else c0 F) (sumn (m - 1) (fun y => v (y * (d * d) + a)%nat))
              else v (x * (d * d) + a)%nat.
 Definition pvar_of_vecs (d : nat) (vs : nat -> rvec) : rvec := fun k => vs (k / (d * d))%nat (k mod (d * d))%nat.
+
+(* ---------------------------------------------------------------- executable basis predicates (exact; used for the concrete rational instance) *)
+Definition ceqb (z w : Cx) : bool := keqb F (re z) (re w) && keqb F (im z) (im w).
+Definition orthonormal_dec (d : nat) (B : nat -> cmat) : bool :=
+  allb (d * d) (fun a => allb (d * d) (fun b => ceqb (hs_inner d (B a) (B b)) (if Nat.eqb a b then 1 else 0))).
+Definition complete_dec (d : nat) (B : nat -> cmat) : bool :=
+  allb d (fun i => allb d (fun j => allb d (fun k => allb d (fun l =>
+    ceqb (sumn (d * d) (fun a => zconj (B a i j) * B a k l)) (if Nat.eqb i k && Nat.eqb j l then 1 else 0))))).
+Definition hermitian_basis_dec (d : nat) (B : nat -> cmat) : bool :=
+  allb (d * d) (fun a => allb d (fun i => allb d (fun j => ceqb (B a i j) (zconj (B a j i))))).
+Definition identity0_dec (d : nat) (sd : F) (B : nat -> cmat) : bool :=
+  allb d (fun i => allb d (fun j => ceqb (zof sd * B 0%nat i j) (if Nat.eqb i j then 1 else 0))).
+
+(* ---------------------------------------------------------------- the standing exactly-rational instance: 2-qubit normalised Pauli basis
+   B_(4a+b) = (1/2) sigma_a (x) sigma_b  (entries 0, +-1/2, +-i/2; sd = 2), the basis quara builds for two qubits *)
+Definition ci : Cx := (c0 F, c1 F).
+Definition pauli1 (a : nat) : cmat := fun i j =>
+  match a, i, j with
+  | 0%nat, 0%nat, 0%nat => 1 | 0%nat, 1%nat, 1%nat => 1
+  | 1%nat, 0%nat, 1%nat => 1 | 1%nat, 1%nat, 0%nat => 1
+  | 2%nat, 0%nat, 1%nat => copp Cx ci | 2%nat, 1%nat, 0%nat => ci
+  | 3%nat, 0%nat, 0%nat => 1 | 3%nat, 1%nat, 1%nat => copp Cx 1
+  | _, _, _ => 0 end.
+Definition khalf : F := kdiv F (c1 F) (cadd F (c1 F) (c1 F)).
+Definition pauli2n (c : nat) : cmat := mscale (zof khalf : Cx) (kron 2 2 (pauli1 (c / 4)%nat) (pauli1 (c mod 4)%nat)).
 End C02Conv.
 
 Arguments op_of_cvec {F} d B c _ _. Arguments cchoi_of_hs {F} d B H _ _. Arguments capply_hs {F} d B H X _ _.
@@ -195,3 +220,5 @@ Arguments choi_of_var {F} d B para v _ _. Arguments var_of_choi_spec {F} d B par
 Arguments var_of_choi_impl {F} d B para Ch _. Arguments svec_of_var {F} isd para v _. Arguments svar_of_vec {F} para v _.
 Arguments density_of_var {F} isd d B para v _ _. Arguments var_of_density_impl {F} eps d B para X.
 Arguments pvecs_of_var {F} sd d m para v _ _. Arguments pvar_of_vecs {F} d vs _.
+Arguments ceqb {F} z w. Arguments orthonormal_dec {F} d B. Arguments complete_dec {F} d B. Arguments hermitian_basis_dec {F} d B.
+Arguments identity0_dec {F} d sd B. Arguments pauli1 {F} a _ _. Arguments pauli2n {F} c _ _.
